@@ -47,7 +47,7 @@ Qed.
 (* what the open guarantees (try_open_wf) plus what the plan guarantees (compute_wf) *)
 Lemma run_phases_healthy : forall pl base m0,
   f_ptr m0 = f_toc m0 -> f_S m0 = f_C m0 -> f_tocdec m0 = true ->
-  (match pl_heal_ptr pl with Some t => t = f_toc m0 | None => True end) ->
+  (match pl_heal_ptr pl with Some t => t <= f_toc m0 | None => True end) ->
   (pl_finalize pl = false -> f_footer m0 = true /\ f_tocbytes m0 = true /\ pl_heal_ck pl = None /\ f_H m0 = f_S m0 /\
                              pl_vacuum pl = false /\ pl_time pl = false /\ pl_lex pl = false /\ pl_vec pl = false) ->
   (pl_time pl = false -> time_fine m0) ->
@@ -63,11 +63,11 @@ Proof.
   unfold time_fine at 1.
   cbn [f_time f_rows].
   intros -> -> -> Hhp Hfin Ht Hv.
-  unfold run_phases.
+  unfold run_phases, run_phases_gen.
   cbn [pl_heal_ptr pl_heal_ck pl_vacuum pl_time pl_lex pl_vec pl_finalize].
   assert (E1 : heal_ptr (mkFile toc toc foot H C C footer tocbytes true older wal seq time lex vec nvec rows) hp
                = mkFile toc toc foot H C C footer tocbytes true older wal seq time lex vec nvec rows).
-  { destruct hp as [t0|]; [|reflexivity]. subst t0. unfold heal_ptr. cbn [f_ptr]. rewrite N.eqb_refl. reflexivity. }
+  { destruct hp as [t0|]; [|reflexivity]. unfold heal_ptr. cbn [f_ptr]. destruct (N.ltb_spec toc t0) as [Hlt|_]; [exfalso; apply N.lt_nge in Hlt; exact (Hlt Hhp)|reflexivity]. }
   rewrite E1. clear E1 Hhp.
   assert (E2 : exists H', heal_ck (mkFile toc toc foot H C C footer tocbytes true older wal seq time lex vec nvec rows) hc
                = mkFile toc toc foot H' C C footer tocbytes true older wal seq time lex vec nvec rows /\ (hc = None -> H' = H)).
@@ -110,7 +110,7 @@ Proof.
 Qed.
 
 Theorem doctor_heals : forall o f,
-  o_dry o = false -> wf f -> known_stale_ptr f = false -> known_toc_cksum f = false ->
+  o_dry o = false -> wf f -> known_toc_cksum f = false ->
   healthy (fst (doctor o f)) /\
   f_rows (fst (doctor o f)) = view f /\
   r_status (snd (doctor o f)) = (if is_noop (compute o f) then 0 else 1) /\
@@ -119,17 +119,17 @@ Theorem doctor_heals : forall o f,
   f_nvec (fst (doctor o f)) = (if vec_bad (f_vec f) || o_vec o then 0 else f_nvec f) /\
   f_seq (fst (doctor o f)) = 0.
 Proof.
-  intros o f Hdry Hwf Hk1 Hk2.
+  intros o f Hdry Hwf Hk2.
   destruct (try_open_wf f Hwf Hk2) as (m0 & Hopen & Hal & HSC & Hdec & _ & _ & Hrows & Htoc & Hvec & _ & Hnv & Hrep).
   destruct (compute_wf o f Hwf) as (Php & Phc & Pvac & Ptime & Plex & Pvec & Pwb & Pfin).
   assert (Hnoop := is_noop_wf o f Hwf).
   assert (Hlog : log_ok f) by (destruct Hwf as (_ & _ & ? & _); assumption).
-  unfold doctor. rewrite Hdry. unfold open_for_doctor. rewrite Pwb, Hopen.
+  unfold doctor, doctor_gen. rewrite Hdry. unfold open_for_doctor. rewrite Pwb, Hopen.
+  change (run_phases_gen heal_ptr) with run_phases.
   assert (Hrun := run_phases_healthy (compute o f) (length (f_rows f)) m0 Hal HSC Hdec).
-  assert (A1 : match pl_heal_ptr (compute o f) with Some t => t = f_toc m0 | None => True end).
-  { rewrite Php. destruct (N.eqb_spec (f_ptr f) (f_toc f)) as [E|E]; [exact I|].
-    unfold known_stale_ptr in Hk1. apply N.eqb_neq in E. rewrite E in Hk1. cbn [negb andb] in Hk1.
-    unfold moved in Htoc. rewrite Hk1 in Htoc. symmetry. exact Htoc. }
+  assert (A1 : match pl_heal_ptr (compute o f) with Some t => t <= f_toc m0 | None => True end).
+  { rewrite Php. destruct (f_ptr f =? f_toc f); [exact I|].
+    rewrite Htoc. destruct (moved f); [apply N.le_add_r|apply N.le_refl]. }
   assert (A2 : pl_finalize (compute o f) = false ->
                f_footer m0 = true /\ f_tocbytes m0 = true /\ pl_heal_ck (compute o f) = None /\ f_H m0 = f_S m0 /\
                pl_vacuum (compute o f) = false /\ pl_time (compute o f) = false /\ pl_lex (compute o f) = false /\ pl_vec (compute o f) = false).
@@ -158,11 +158,11 @@ Qed.
 
 (* a healthy file is in the list and in neither known class *)
 Lemma healthy_facts : forall m, healthy m -> f_older m = None ->
-  wf m /\ known_stale_ptr m = false /\ known_toc_cksum m = false /\ view m = f_rows m /\
+  wf m /\ known_toc_cksum m = false /\ view m = f_rows m /\
   read_toc m = true /\ replayed m = false /\ needs_time_of m = false /\ vec_bad (f_vec m) = false.
 Proof.
   intros m (Hp & HH & HS & Hf & Htb & Hd & Hw & Ht & Hv) Ho.
-  unfold wf, log_ok, known_stale_ptr, known_toc_cksum, view, read_toc, replayed, needs_time_of, needs_time, vec_bad.
+  unfold wf, log_ok, known_toc_cksum, view, read_toc, replayed, needs_time_of, needs_time, vec_bad.
   rewrite Hw, Hp, HS, Hf, Htb, Hd, !N.eqb_refl. cbn.
   repeat split; try assumption; try reflexivity; try (left; split; reflexivity).
   - destruct Ht as [->|[-> ->]]; reflexivity.
@@ -176,8 +176,8 @@ Theorem doctor_second_run : forall o m,
   r_status (snd (doctor o m)) = (if forces o then 1 else 0).
 Proof.
   intros o m Hdry Hh Ho.
-  destruct (healthy_facts m Hh Ho) as (Hwf & Hk1 & Hk2 & Hview & Hrt & Hrep & Hnt & Hvb).
-  destruct (doctor_heals o m Hdry Hwf Hk1 Hk2) as (H1 & H2 & H3 & _).
+  destruct (healthy_facts m Hh Ho) as (Hwf & Hk2 & Hview & Hrt & Hrep & Hnt & Hvb).
+  destruct (doctor_heals o m Hdry Hwf Hk2) as (H1 & H2 & H3 & _).
   split; [exact H1|]. split; [congruence|]. rewrite H3.
   assert (Hn := is_noop_wf o m Hwf).
   destruct (forces o) eqn:Ef.
@@ -189,7 +189,7 @@ Qed.
 Theorem doctor_dry_run : forall o f, o_dry o = true ->
   fst (doctor o f) = f /\ r_status (snd (doctor o f)) = (if is_noop (compute o f) then 0 else 4) /\
   r_verified (snd (doctor o f)) = None.
-Proof. intros o f Hd. unfold doctor. rewrite Hd. repeat split. Qed.
+Proof. intros o f Hd. unfold doctor, doctor_gen. rewrite Hd. repeat split. Qed.
 
 (* ---------- boundaries ---------- *)
 (* an unreadable log is zeroed: the acknowledged records it held are gone, whatever the report says *)
@@ -201,7 +201,8 @@ Proof.
   cbn in Hw, Ho. subst wal older.
   destruct Hh as (Hp & HH & HS & Hf & Htb & Hd & _ & Ht & Hv).
   cbn in Hp, HH, HS, Hf, Htb, Hd, Ht, Hv. subst ptr H S footer tocbytes tocdec.
-  unfold doctor. rewrite Hdry.
+  unfold doctor, doctor_gen. rewrite Hdry.
+  change (run_phases_gen heal_ptr) with run_phases.
   unfold compute, probe, find_toc, read_toc, open_for_doctor, try_open, read_toc, zero_log.
   cbn [f_ptr f_toc f_foot f_H f_S f_C f_footer f_tocbytes f_tocdec f_older f_wal f_seq f_time f_lex f_vec f_nvec f_rows
        wal_bad wal_pending andb].
@@ -211,7 +212,7 @@ Proof.
   set (m0 := mkFile toc toc foot C C C true true true None WClean 0 time lex vec nvec rows).
   set (pl := mkPlan _ _ _ _ _ _ _ _ _ _).
   assert (Hrun := run_phases_healthy pl (length rows) m0 eq_refl eq_refl eq_refl).
-  assert (A1 : match pl_heal_ptr pl with Some t => t = f_toc m0 | None => True end) by exact I.
+  assert (A1 : match pl_heal_ptr pl with Some t => t <= f_toc m0 | None => True end) by exact I.
   assert (A2 : pl_finalize pl = false ->
                f_footer m0 = true /\ f_tocbytes m0 = true /\ pl_heal_ck pl = None /\ f_H m0 = f_S m0 /\
                pl_vacuum pl = false /\ pl_time pl = false /\ pl_lex pl = false /\ pl_vec pl = false).
@@ -271,10 +272,10 @@ Proof.
   assert (R : forall x c, f_older x = None -> f_older (rewrite_toc x c) = None).
   { intros x c Hx. unfold rewrite_toc. destruct (f_ptr x =? f_toc x); cbn [f_older]; [exact Hx|reflexivity]. }
   assert (Hp : f_older (heal_ptr m (pl_heal_ptr pl)) = None).
-  { unfold heal_ptr. destruct (pl_heal_ptr pl) as [t|]; [|exact H0]. destruct (f_ptr m =? t); [exact H0|]. unfold with_hdr. cbn [f_older]. exact H0. }
+  { unfold heal_ptr. destruct (pl_heal_ptr pl) as [t|]; [|exact H0]. destruct (f_ptr m <? t); [|exact H0]. unfold with_hdr. cbn [f_older]. exact H0. }
   assert (Hc : f_older (heal_ck (heal_ptr m (pl_heal_ptr pl)) (pl_heal_ck pl)) = None).
   { unfold heal_ck. destruct (pl_heal_ck pl) as [e|]; [|exact Hp]. destruct (f_H _ =? e); [exact Hp|]. unfold with_hdr. cbn [f_older]. exact Hp. }
-  unfold run_phases, reset_wal, zero_log. cbn [f_older].
+  unfold run_phases, run_phases_gen, reset_wal, zero_log. cbn [f_older].
   set (m1 := heal_ck _ _) in *.
   assert (Hv : f_older (if pl_vacuum pl then vacuum m1 b else m1) = None) by (destruct (pl_vacuum pl); [reflexivity|exact Hc]).
   set (m2 := if pl_vacuum pl then _ else _) in *.
@@ -293,19 +294,20 @@ Theorem doctor_heals_every_listed_damage : forall d o f,
 Proof.
   intros d o f Hs Hdry Hk. cbv zeta.
   destruct (damage_wf d f Hs) as (Hwf & Hview).
-  unfold known_class in Hk. rewrite Hdry in Hk. cbn [negb andb] in Hk. apply orb_false_elim in Hk as [Hk1 Hk2].
-  destruct (doctor_heals o (damage_file d f) Hdry Hwf Hk1 Hk2) as (Hh & Hr & Hst & Hvf & Hv & _ & _).
+  unfold known_class in Hk. rewrite Hdry in Hk. cbn [negb andb] in Hk. rename Hk into Hk2.
+  destruct (doctor_heals o (damage_file d f) Hdry Hwf Hk2) as (Hh & Hr & Hst & Hvf & Hv & _ & _).
   rewrite Hview in Hr.
   assert (Hold : f_older (fst (doctor o (damage_file d f))) = None).
   { (* the older-commit field is only ever cleared or kept, and it starts as None *)
     clear - Hs Hdry Hwf Hk2.
     destruct (try_open_wf _ Hwf Hk2) as (m0 & Hopen & _ & _ & _ & Hold0 & _).
     destruct (compute_wf o _ Hwf) as (_ & _ & _ & _ & _ & _ & Pwb & _).
-    unfold doctor. rewrite Hdry. unfold open_for_doctor. rewrite Pwb, Hopen.
+    unfold doctor, doctor_gen. rewrite Hdry. unfold open_for_doctor. rewrite Pwb, Hopen.
+    change (run_phases_gen heal_ptr) with run_phases.
     set (pl := compute o (damage_file d f)). set (b := length _).
     assert (E : f_older (run_phases pl b m0) = None) by (apply older_run_phases; exact Hold0).
     destruct (verify (run_phases pl b m0)) as [[|]| |]; cbn [fst]; exact E. }
-  destruct (healthy_facts _ Hh Hold) as (Hwf2 & Hk21 & Hk22 & Hview2 & _).
+  destruct (healthy_facts _ Hh Hold) as (Hwf2 & Hk22 & Hview2 & _).
   destruct (doctor_second_run default_opts _ eq_refl Hh Hold) as (_ & Hr2 & Hs2).
   split; [exact Hh|]. split; [exact Hr|].
   split; [rewrite Hr; apply preserves_refl|].
@@ -326,8 +328,27 @@ Theorem doctor_heals_outside_known : forall o f,
   f_nvec (fst (doctor o f)) = (if vec_bad (f_vec f) || o_vec o then 0 else f_nvec f).
 Proof.
   intros o f Hwf Hdry Hk. unfold known_class in Hk. rewrite Hdry in Hk. cbn [negb andb] in Hk.
-  apply orb_false_elim in Hk as [Hk1 Hk2].
-  destruct (doctor_heals o f Hdry Hwf Hk1 Hk2) as (H1 & H2 & H3 & H4 & H5 & H6 & _).
+  rename Hk into Hk2.
+  destruct (doctor_heals o f Hdry Hwf Hk2) as (H1 & H2 & H3 & H4 & H5 & H6 & _).
   split; [exact H1|]. split; [exact H2|]. split; [rewrite H2; apply preserves_refl|].
   split; [exact H3|]. split; [exact H4|]. split; [exact H5|exact H6].
+Qed.
+
+(* ---------- HealHeaderPointer after fix f76b325 ---------- *)
+(* On every listed file the planned target is the TOC offset the probe saw; the handle's pointer after the
+   open is that offset or one further (when the replay inserted a frame): the target never lies ahead of
+   the handle's pointer, so the action's remaining `<` branch does not execute and the header pointer the
+   open established is the one that stays. *)
+Theorem heal_ptr_target_never_ahead : forall o f m0 extra t,
+  wf f -> known_toc_cksum f = false ->
+  open_for_doctor (compute o f) f = inl (m0, extra) -> pl_heal_ptr (compute o f) = Some t ->
+  t <= f_ptr m0 /\ heal_ptr m0 (Some t) = m0.
+Proof.
+  intros o f m0 extra t Hwf Hk Hopen Hp.
+  destruct (try_open_wf f Hwf Hk) as (m & Hto & Hal & _ & _ & _ & _ & _ & Htoc & _).
+  destruct (compute_wf o f Hwf) as (Php & _ & _ & _ & _ & _ & Pwb & _).
+  unfold open_for_doctor in Hopen. rewrite Pwb, Hto in Hopen. inversion Hopen; subst m0 extra.
+  rewrite Php in Hp. destruct (f_ptr f =? f_toc f); [discriminate|]. inversion Hp; subst t.
+  assert (Hle : f_toc f <= f_ptr m) by (rewrite Hal, Htoc; destruct (moved f); [apply N.le_add_r|apply N.le_refl]).
+  split; [exact Hle|]. unfold heal_ptr. destruct (N.ltb_spec (f_ptr m) (f_toc f)) as [Hlt|_]; [exfalso; apply N.lt_nge in Hlt; exact (Hlt Hle)|reflexivity].
 Qed.
